@@ -377,6 +377,27 @@ impl Ph {
                     }
                 }
             }
+            // who pays: the side named by the sign of the funding factor just stored is the one whose fee index may grow, the
+            // other side's claimable index is the one that may grow (with c12.rs: the larger side is the one named)
+            if let Some(p) = prev {
+                use num_traits::Signed as _;
+                let payer = if m.funding_factor_per_second.is_positive() { Some(0) } else if m.funding_factor_per_second.is_negative() { Some(1) } else { None };
+                if let Some(pay) = payer {
+                    for side in 0..2 {
+                        let fee_grew = m.funding_per_size[side] != p.m.funding_per_size[side];
+                        let claim_grew = m.claimable_funding_per_size[side] != p.m.claimable_funding_per_size[side];
+                        if side != pay && fee_grew {
+                            out.fail("C12/receiving_side_charged_funding", format!("funding factor {:?} (side {pay} pays): fee index of side {side} moved {:?} -> {:?}", m.funding_factor_per_second, p.m.funding_per_size[side], m.funding_per_size[side]));
+                        }
+                        if side == pay && claim_grew {
+                            out.fail("C12/paying_side_credited_funding", format!("funding factor {:?} (side {pay} pays): claimable index of side {side} moved {:?} -> {:?}", m.funding_factor_per_second, p.m.claimable_funding_per_size[side], m.claimable_funding_per_size[side]));
+                        }
+                        if fee_grew || claim_grew {
+                            out.count("funding_index_movements_checked", 1);
+                        }
+                    }
+                }
+            }
             let mut mm = st.m.clone();
             for p in &st.pos {
                 if p.size_usd == 0 {
